@@ -125,6 +125,8 @@ class Seaweed:
 
         # percentage gain per month
         sorted_monthly_percents = 100 * (((sorted_daily_percents / 100) + 1) ** 30)
+        # one growth factor per simulated month (the table has a column for every month of the longest horizon)
+        sorted_monthly_percents = sorted_monthly_percents[: self.NMONTHS]
         self.growth_rates_monthly = sorted_monthly_percents
 
         return sorted_monthly_percents
